@@ -9,8 +9,8 @@ cover the whole operation list, for every worker count `1 … 64` (from T13.1, t
   comparing its first six bits with the child index;
 * `rangeEnd_eq_next` — `range_end` of worker `i` is `range_start` of worker `i+1`; `rangeStart_zero`,
   `rangeEnd_last`; `rangeStart_le_rangeEnd`;
-* `range_spec` — on a key-sorted list, the operations in `[range_start, range_end)` are exactly those whose first six
-  bits lie in the worker's region.
+* (`range_spec`, in `SplitPending.lean`) — on a key-sorted list, the operations in `[range_start, range_end)` have their first six
+  bits in the worker's region.
 -/
 namespace Nomt.Split
 open Nomt Nomt.Api
